@@ -19,7 +19,7 @@ func c03(c *eng.Ctx, r *eng.Report) {
 		"R3.3 history is append-only — no production caller of Dereference/Cap and no Delete on a state store anywhere in storage/trie or storage/account; " +
 		"R3.4 the commit leaf callback references every hash-valued field of Account (storage root, code hash), each reference conditional only on its own field; dirty objects commit their storage trie (error checked) before their account record is written; " +
 		"R3.5 state commit then node-database commit, both error-checked, before success is reported and before the head moves (shared with C05 R5.4); " +
-		"R3.6 errors of batch writes and commits are consumed at every call site; R3.7 the flag that makes Commit write an account's code blob is raised unconditionally (constant true) by every function that installs code bytes, lowered only in Commit after InsertBlob of those bytes, and never computed. " +
+		"R3.6 errors of batch writes and commits are consumed at every call site; R3.8 an entry leaves an account's flush set (dirtyStorage) only in updateTrie, as it is written to the storage trie; R3.7 the flag that makes Commit write an account's code blob is raised unconditionally (constant true) by every function that installs code bytes, lowered only in Commit after InsertBlob of those bytes, and never computed. " +
 		"Not decided: LevelDB batch atomicity and durability (trusted), that every value readable before is readable after, arbitrary physical crash points."
 	r.Assume = []string{"a LevelDB batch write is atomic and durable once it returns nil"}
 	c03PostOrder(c, r)
@@ -29,6 +29,7 @@ func c03(c *eng.Ctx, r *eng.Report) {
 	c05StateBeforeHeadAs(c, r, "R3.5")
 	c03Errors(c, r)
 	c03DirtyBlob(c, r)
+	c03FlushSet(c, r)
 }
 
 func batchCalls(fn *ssa.Function, method string) []*ssa.Call {
@@ -88,6 +89,30 @@ func c03PostOrder(c *eng.Ctx, r *eng.Report) {
 			}
 		}
 		r.Check(ok, rule, "(*storage/trie.NodeDatabase).commit:flush-after-put", c.Pos(fn.Pos()), "the intermediate batch flush follows the Put of the current node (any flushed prefix is child-closed)", "the intermediate batch.Write no longer follows the node's Put")
+		// no skip: commit reports success for a node only if the node is not in the dirty cache (already
+		// persisted) or after it was Put in this very call — nothing remembered from an earlier, possibly
+		// failed, attempt may short-cut it
+		skip := ""
+		for _, re := range eng.Returns(fn) {
+			if eng.RetClass(re.Ret, 0, re.Pred) != "nil" {
+				continue
+			}
+			if eng.Dominates(puts[0], re.Ret) {
+				continue
+			}
+			absent := false
+			for _, cd := range eng.EdgeConds(re.Ret.Block()) {
+				if ex, isE := cd.V.(*ssa.Extract); isE && !cd.True && ex.Index == 1 {
+					if lk, isL := ex.Tuple.(*ssa.Lookup); isL && strings.HasSuffix(eng.Desc(lk.X), ".nodes") {
+						absent = true
+					}
+				}
+			}
+			if !absent {
+				skip = "commit returns nil at " + c.Pos(re.Ret.Pos()) + " without having Put the node and not because the node is absent from the dirty cache"
+			}
+		}
+		r.Check(skip == "", rule, "(*storage/trie.NodeDatabase).commit:no-skip", c.Pos(fn.Pos()), "success for a node means: not dirty, or Put in this call", skip+": a node skipped on the strength of an earlier attempt is missing from disk when that attempt's batch was lost, yet the retry reports success and the cache is dropped")
 	}
 }
 
@@ -393,4 +418,76 @@ func c03DirtyBlob(c *eng.Ctx, r *eng.Report) {
 		}
 	}
 	r.Check(n >= 3, rule, "dirty-flag:sites", "", fmt.Sprintf("%d sites", n), fmt.Sprintf("only %d stores to dirtyNFTSet/nftSet found", n))
+}
+
+// c03FlushSet: a storage slot written in this block stays in the object's
+// flush set (dirtyStorage) until updateTrie has put it into the storage trie —
+// nothing else may take entries out, or the committed root silently lacks a
+// write that every read before the commit still saw.
+func c03FlushSet(c *eng.Ctx, r *eng.Report) {
+	const rule = "R3.8"
+	r.Min(rule, 1)
+	n := 0
+	for _, fn := range c.PkgFuncs("storage/account") {
+		if c.IsTestFunc(fn) {
+			continue
+		}
+		for _, s := range eng.Sites(fn) {
+			if s.Name() != "builtin:delete" {
+				continue
+			}
+			m := s.Common().Args[0]
+			if !strings.HasSuffix(eng.Desc(m), ".dirtyStorage") {
+				continue
+			}
+			n++
+			key := "dirtyStorage-delete:" + eng.FuncName(fn)
+			if fn.Name() != "updateTrie" {
+				r.Fail(rule, key, c.Pos(s.Pos()), eng.FuncName(fn)+" deletes from accountObject.dirtyStorage: only updateTrie may shrink the flush set (a slot dropped from it is never written to the storage trie, so the committed root lacks a write that was readable before the commit)")
+				continue
+			}
+			// inside updateTrie the deleted key is the one being written to the trie in the same iteration
+			k := s.Common().Args[1]
+			written := false
+			for _, s2 := range eng.Sites(fn) {
+				n2 := s2.Name()
+				if strings.HasSuffix(n2, ".TryUpdate") || strings.HasSuffix(n2, ".TryDelete") || strings.HasSuffix(n2, ".setError") {
+					for _, a := range s2.Common().Args {
+						if valueDerivesFromValue(a, k) || valueDerivesFromValue(k, a) {
+							written = true
+						}
+					}
+				}
+			}
+			r.Check(written, rule, key, c.Pos(s.Pos()), "an entry leaves the flush set only as it is written to the storage trie", "updateTrie deletes a key from dirtyStorage that it does not write to the storage trie in the same pass")
+		}
+	}
+	if n == 0 {
+		r.Fail(rule, "dirtyStorage-delete:none", "", "no delete from dirtyStorage found (updateTrie expected): the flush loop has changed shape and must be re-reviewed")
+	}
+}
+
+// valueDerivesFromValue: b occurs among the operands a is computed from.
+func valueDerivesFromValue(a, b ssa.Value) bool {
+	seen := map[ssa.Value]bool{}
+	var walk func(v ssa.Value, d int) bool
+	walk = func(v ssa.Value, d int) bool {
+		if v == nil || d > 5 || seen[v] {
+			return false
+		}
+		seen[v] = true
+		if v == b {
+			return true
+		}
+		if in, ok := v.(ssa.Instruction); ok {
+			var ops []*ssa.Value
+			for _, o := range in.Operands(ops) {
+				if *o != nil && walk(*o, d+1) {
+					return true
+				}
+			}
+		}
+		return false
+	}
+	return walk(a, 0)
 }
